@@ -53,8 +53,11 @@ class OggFLACStreamInfo(StreamInfo):
         page = OggPage(fileobj)
         while not (page.packets and page.packets[0].startswith(b"\x7FFLAC")):
             page = OggPage(fileobj)
-        major, minor, self.packets, flac = struct.unpack(
-            ">BBH4s", page.packets[0][5:13])
+        try:
+            major, minor, self.packets, flac = struct.unpack(
+                ">BBH4s", page.packets[0][5:13])
+        except struct.error:
+            raise OggFLACHeaderError("header packet too short")
         if flac != b"fLaC":
             raise OggFLACHeaderError("invalid FLAC marker (%r)" % flac)
         elif (major, minor) != (1, 0):
